@@ -189,6 +189,7 @@ fn budget(prop: &str, tier: &str, seed: u64, scale: f64) -> Budget {
             sweeps.push(sweeps::c05_eci_three_byte_designators(true));
             sweeps.push(sweeps::c05_long_streams());
             sweeps.push(sweeps::c05_c40_value_sequences());
+            sweeps.push(sweeps::c05_c40_then_tail());
             sweeps.push(sweeps::c05_charset_sections());
             sweeps.push(sweeps::c05_repeated_atoms());
             sweeps.push(sweeps::c05_pad_structures());
